@@ -292,6 +292,13 @@ def classify(e):
 
 
 # ---------------------------------------------------------------------- running cases
+def _no_harness_error(envs):
+    """Trouble of the harness itself (gate timeout, ...) is an infrastructure error, never a verdict on malt."""
+    for e in envs:
+        if e.outcome and e.outcome[0] == 'harness-error':
+            raise RuntimeError('harness error in thread %d: %s' % (e.tid, e.outcome))
+
+
 def run_alone(tree):
     """The tree in a fresh thread, nothing else running: the single-thread log."""
     env = Env(tree)
@@ -300,6 +307,7 @@ def run_alone(tree):
     t.join(300)
     if t.is_alive():
         raise RuntimeError('thread did not finish')
+    _no_harness_error([env])
     return env
 
 
@@ -331,6 +339,7 @@ def run_together(trees, mode, schedule=None, jitter_seed=0):
                 raise RuntimeError('thread did not finish')
     finally:
         sys.setswitchinterval(old)
+    _no_harness_error(envs)
     return envs, (gate.used if gate else None)
 
 
